@@ -17,7 +17,7 @@ fn space(tier: Tier) -> &'static Space {
     static Q: OnceLock<Space> = OnceLock::new();
     static T: OnceLock<Space> = OnceLock::new();
     match tier {
-        Tier::Quick => Q.get_or_init(|| Space::new(&[("FT", 2), ("FL", 3), ("FR", 0)])),
+        Tier::Quick => Q.get_or_init(|| Space::new(&[("FT", 3), ("FL", 4), ("FR", 0)])),
         Tier::Thorough => T.get_or_init(|| Space::new(&[("FT", 3), ("FL", 5), ("FR", 0)])),
     }
 }
@@ -31,6 +31,9 @@ fn samples(tier: Tier) -> usize {
 impl Prop for C11 {
     fn id(&self) -> &'static str {
         "C11"
+    }
+    fn shards_per_job(&self) -> u64 {
+        16
     }
     fn n_cases(&self, tier: Tier) -> u64 {
         space(tier).n()
